@@ -10,7 +10,7 @@ package auth
 
 // The map is exactly the set of the listed names.
 //@ contract NewAccesControl
-//@   shape sig=(allowedList []string)( *AccessControl);loops=range;lits=0
+//@   shape sig=(allowedList []string)( *AccessControl);loops=range;lits=0;fv=
 //@   props C15 C16
 //@   ensures result != nil && fresh(result) && result.allowedMap != nil
 //@   ensures @exact: forall s string :: { s in result.allowedMap } (s in result.allowedMap) <==> (exists k int :: 0 <= k && k < len(allowedList) && allowedList[k] == s)
@@ -24,7 +24,7 @@ package auth
 //@   loop 1 invariant ($i == 0 ==> len(allowedMap) == 0) && ($i > 0 ==> len(allowedMap) > 0)
 
 //@ contract (*AccessControl).IsAllowed
-//@   shape sig=(a *AccessControl)(name string)( bool);loops=;lits=0
+//@   shape sig=(a *AccessControl)(name string)( bool);loops=;lits=0;fv=
 //@   props C15 C16
 //@   ensures result == allowedIn(a, name)
 //@   assigns nothing
@@ -36,7 +36,7 @@ package auth
 
 // Namespace registration and deprecation are never allowed.
 //@ contract IsAllowedWorkflowMigrationAPIs
-//@   shape sig=(action string)( bool);loops=;lits=0
+//@   shape sig=(action string)( bool);loops=;lits=0;fv=
 //@   props C15
 //@   ensures result == (action != "DeprecateNamespace" && action != "RegisterNamespace")
 //@   assigns nothing
